@@ -72,8 +72,11 @@ def _get(dd, name):
   return o
 
 
-def poison(dd, nan, keep=()):
-  """Overwrite every non-state wp.array of Data (recursively through d.efc / d.contact)."""
+def poison(dd, mode, keep=()):
+  """Overwrite every non-state wp.array of Data (recursively through d.efc / d.contact).
+  mode: "finite" (12345.0 / 7), "nan" (NaN / 7), "ones" (0.75 / 1: plausible values - efc.state 1 is QUADRATIC,
+  so rows beyond nefc look like live quadratic rows with a non-zero D and J)."""
+  nan = mode == "nan"
   import warp as wp
 
   n = 0
@@ -82,9 +85,9 @@ def poison(dd, nan, keep=()):
       continue
     a = x.numpy()
     if a.dtype.kind == "f":
-      a[...] = np.nan if nan else 12345.0
+      a[...] = np.nan if nan else (0.75 if mode == "ones" else 12345.0)
     elif a.dtype.kind in "iu":
-      a[...] = 7
+      a[...] = 1 if mode == "ones" else 7
     elif a.dtype.kind == "b":
       a[...] = True
     else:
@@ -131,10 +134,10 @@ def make_case(k):
   return rng, xml, m, (integ, jac, solver)
 
 
-def fresh_with_state(m, st):
+def fresh_with_state(m, st, caps=None):
   import mujoco_warp as mjw
 
-  A = mjw.make_data(m, nworld=1)
+  A = mjw.make_data(m, nworld=1, **(caps or {}))
   for n, v in st.items():
     if getattr(A, n).size:
       getattr(A, n).assign(np.asarray(v, dtype=np.float32).reshape(getattr(A, n).shape))
@@ -151,7 +154,7 @@ def random_state_dict(rng, m):
   return {"qpos": d.qpos.copy(), "qvel": d.qvel.copy(), "act": d.act.copy(), "ctrl": d.ctrl.copy(), "qfrc_applied": rng.normal(0, 0.2, m.nv)}
 
 
-def history_data(rng, mm, m, nsteps):
+def history_data(rng, mm, m, nsteps, caps=None, need=None):
   """A Data that lived: random start, random ctrl, contacts made and broken, a reset in the middle."""
   import mujoco
 
@@ -160,11 +163,14 @@ def history_data(rng, mm, m, nsteps):
 
   d2 = mujoco.MjData(m)
   models.random_state(rng, m, d2, vel_scale=2.0, unnormalized=False)
-  B = mjw.put_data(m, d2, nworld=1)
+  B = mjw.put_data(m, d2, nworld=1, **(caps or {}))
   for s in range(nsteps):
     if m.nu:
       B.ctrl.assign(rng.normal(0, 1, (1, m.nu)).astype(np.float32))
     mjw.step(mm, B)
+    if need is not None:
+      need[0] = max(need[0], int(B.nefc.numpy().max()))
+      need[1] = max(need[1], int(B.nacon.numpy()[0]))
     if s == nsteps // 2 and rng.random() < 0.5:
       mjw.reset_data(mm, B)
       B.qvel.assign(rng.normal(0, 1, (1, m.nv)).astype(np.float32))
@@ -200,16 +206,30 @@ def compare(mm, m, A, B, forward_only=False):
   return bad, first
 
 
-def experiment(rng, mm, m, st, nan, hist_steps, fix=(), forward_only=False):
+def measure_need(rng, mm, m, st, hist_steps):
+  """(max nefc, max nacon) over the history and the compared step/forward, at default capacities."""
+  import mujoco_warp as mjw
+
+  need = [0, 0]
+  history_data(rng, mm, m, hist_steps, need=need)
+  A = fresh_with_state(m, st)
+  for fn in (mjw.step, mjw.forward):
+    fn(mm, A)
+    need[0] = max(need[0], int(A.nefc.numpy().max()))
+    need[1] = max(need[1], int(A.nacon.numpy()[0]))
+  return need
+
+
+def experiment(rng, mm, m, st, nan, hist_steps, fix=(), forward_only=False, caps=None):
   """Returns (bad state fields after step, first differing forward output). `fix` = names of known-cause groups that
   are neutralised (set to the fresh Data's values instead of history/garbage) to attribute a failure."""
   import warp as wp
 
   import mujoco_warp as mjw
 
-  A = fresh_with_state(m, st)
-  P = mjw.make_data(m, nworld=1)  # pristine, for the legitimately persistent rows
-  B = history_data(rng, mm, m, hist_steps)
+  A = fresh_with_state(m, st, caps)
+  P = mjw.make_data(m, nworld=1, **(caps or {}))  # pristine, for the legitimately persistent rows
+  B = history_data(rng, mm, m, hist_steps, caps)
   copy_state(B, A)
   poison(B, nan)
   restore_static_rows(m, B, P)
@@ -272,37 +292,42 @@ def directed_nan():
 
 
 def run_case(res, k, hist_steps):
-  """One model, both streams.  Returns list of (key, what, data)."""
+  """One model, three poison streams; odd k at TIGHT capacities (njmax / nconmax = exactly what the history and the
+  compared step need).  Returns list of (key, what, data)."""
+  import itertools
+
   import mujoco_warp as mjw
 
   rng, xml, m, cfg = make_case(k)
   mm = mjw.put_model(m)
   st = random_state_dict(rng, m)
   out = []
-  for nan in (False, True):
+  for mode in ("finite", "nan", "ones"):
     seed2 = int(rng.integers(1 << 30))
-    bad, first = experiment(np.random.default_rng(seed2), mm, m, st, nan, hist_steps)
+    caps = None
+    if k % 2 == 1:
+      need = measure_need(np.random.default_rng(seed2), mm, m, st, hist_steps)
+      caps = {"njmax": max(need[0], 1), "nconmax": max(need[1], 1)}
+    nan = mode
+    bad, first = experiment(np.random.default_rng(seed2), mm, m, st, mode, hist_steps, caps=caps)
     res.count()
-    res.nontrivial(("poison", xml, nan))
+    res.nontrivial(("poison", xml, mode))
     if not bad and first is None:
       continue
     if bad:  # name the first stage output that differs at the common state
-      first = experiment(np.random.default_rng(seed2), mm, m, st, nan, hist_steps, forward_only=True)[1] or first
-    data = {"case": k, "stream": "nan" if nan else "finite", "config": cfg, "xml": xml, "state": {a: np.asarray(b).tolist() for a, b in st.items()},
+      first = experiment(np.random.default_rng(seed2), mm, m, st, mode, hist_steps, forward_only=True, caps=caps)[1] or first
+    data = {"case": k, "stream": mode, "config": cfg, "caps": caps, "xml": xml, "state": {a: np.asarray(b).tolist() for a, b in st.items()},
             "hist_seed": seed2, "hist_steps": hist_steps, "state_fields_differ": bad, "first_differing_forward_output": first}  # fmt: skip
-    # attribute to the known causes by neutralising them one after the other
     fixes = []
     if has_connect_weld(m):
       fixes.append("cvel")
-    if nan:
+    if mode == "nan":
       fixes.append("efcJ")
     # smallest set of known causes whose neutralisation clears the difference
-    import itertools
-
     cleared = None
     for r in range(1, len(fixes) + 1):
       for sub in itertools.combinations(fixes, r):
-        bad2, first2 = experiment(np.random.default_rng(seed2), mm, m, st, nan, hist_steps, fix=sub)
+        bad2, first2 = experiment(np.random.default_rng(seed2), mm, m, st, mode, hist_steps, fix=sub, caps=caps)
         if not bad2 and first2 is None:
           cleared = sub
           break
@@ -314,15 +339,201 @@ def run_case(res, k, hist_steps):
     if cleared and "efcJ" in cleared:
       out.append(("C12:solver:nan-stale-efc-J-rows:dense", f"NaN left in efc.J rows >= nefc makes step() return NaN (first differing output {first}); cleared when efc.J is clean", data))
     if not cleared:
-      out.append((f"C12:unexplained:{first or bad[0]}", f"step()/forward() differ between a fresh and a poisoned Data with the same integration state: state fields {bad}, first differing forward output {first}", data))
+      out.append((f"C12:unexplained:{mode}:{first or bad[0]}", f"step()/forward() differ between a fresh and a poisoned ({mode}) Data with the same integration state (caps {caps}): state fields {bad}, first differing forward output {first}", data))
   return out
+
+
+# ---- revisiting earlier states of a trajectory whose constraint count DROPS --------------------------------------
+# A Data simulates a whole trajectory (recording the integration state before every step); then earlier states -
+# those that build FEWER rows than the Data built last, so that stale rows beyond nefc exist and touch the same dofs
+# as the live rows - are copied back into the used Data and into a fresh Data of the same capacities; forward() and
+# step() must agree byte for byte.  Run over capacity variants: exactly the need, <= 16 (one dense Hessian tile),
+# 17..64, default; tight nconmax.
+SCENES = {
+  # tilted box: corner (1 contact) -> edge (2) -> flat (4 contacts)
+  "box": """<mujoco><option timestep="0.004" jacobian="{jac}" solver="{solver}" cone="{cone}"/><worldbody>
+<geom name="floor" type="plane" size="5 5 .1"/>
+<body name="box" pos="0 0 0.25" euler="25 15 0"><freejoint/><geom type="box" size=".1 .1 .1"/></body>
+</worldbody></mujoco>""",
+  # arm released from beyond its joint limits (limit rows appear, then are released) dropping onto a resting sphere
+  "arm": """<mujoco><option timestep="0.004" jacobian="{jac}" solver="{solver}" cone="{cone}"/><worldbody>
+<geom name="floor" type="plane" size="5 5 .1"/>
+<body pos="0 0 .45"><joint name="h1" type="hinge" axis="0 1 0" limited="true" range="-0.4 0.4" damping="0.05"/>
+ <geom type="capsule" fromto="0 0 0 .25 0 0" size=".03"/>
+ <body pos=".25 0 0"><joint name="h2" type="hinge" axis="0 1 0" limited="true" range="-0.6 0.6" damping="0.05"/>
+  <geom type="capsule" fromto="0 0 0 .25 0 0" size=".03"/></body></body>
+<body pos=".3 0 0.13"><freejoint/><geom type="sphere" size=".08"/></body>
+</worldbody></mujoco>""",
+}
+SCENE_INIT = {"box": None, "arm": {"qpos_head": [-0.7, 0.9], "qvel_head": [3.0, -2.0]}}
+OUTS = ["qacc", "qfrc_constraint", "nefc", "solver_niter", "nacon", "sensordata"]
+
+
+def _state_of(d):
+  return {n: getattr(d, n).numpy().copy() for n in STATE}
+
+
+def _set_state(d, st):
+  for n, v in st.items():
+    if v.size:
+      getattr(d, n).assign(v)
+
+
+def _outputs(d):
+  nefc = int(d.nefc.numpy()[0])
+  o = {n: getattr(d, n).numpy().copy() for n in OUTS}
+  o.update({"state." + n: getattr(d, n).numpy().copy() for n in STATE})
+  o["efc.force[:nefc]"] = d.efc.force.numpy()[0, :nefc].copy()
+  return o
+
+
+def revisit(scene, jac, solver, cone, cap, nstep):
+  """Returns (list of failures, info).  cap in {"exact", "le16", "mid", "default"}."""
+  import mujoco
+
+  import mujoco_warp as mjw
+
+  xml = SCENES[scene].format(jac=jac, solver=solver, cone=cone)
+  m = mujoco.MjModel.from_xml_string(xml)
+  mm = mjw.put_model(m)
+
+  def new(caps):
+    d = mjw.make_data(m, **caps)
+    init = SCENE_INIT[scene]
+    if init:
+      q, v = d.qpos.numpy(), d.qvel.numpy()
+      q[0, : len(init["qpos_head"])] = init["qpos_head"]
+      v[0, : len(init["qvel_head"])] = init["qvel_head"]
+      d.qpos.assign(q)
+      d.qvel.assign(v)
+    return d
+
+  # need at default capacities
+  d0 = new({})
+  need_efc = need_con = 0
+  for _ in range(nstep):
+    mjw.step(mm, d0)
+    need_efc, need_con = max(need_efc, int(d0.nefc.numpy()[0])), max(need_con, int(d0.nacon.numpy()[0]))
+  if cap == "exact":
+    caps = {"njmax": max(need_efc, 1), "nconmax": max(need_con, 1)}
+  elif cap == "le16":
+    if need_efc > 16:
+      return [], {"skipped": f"needs {need_efc} rows"}
+    caps = {"njmax": 16, "nconmax": max(need_con, 1)}
+  elif cap == "mid":
+    caps = {"njmax": min(64, max(need_efc + 3, 17)), "nconmax": need_con + 1}
+  else:
+    caps = {}
+  used = new(caps)
+  states, nefcs = [], []
+  for _ in range(nstep):
+    states.append(_state_of(used))
+    mjw.step(mm, used)
+    nefcs.append(int(used.nefc.numpy()[0]))
+    if nefcs[-1] > used.njmax or int(used.nacon.numpy()[0]) > used.naconmax:
+      return [], {"skipped": "capacity overflow in the history run"}
+  peak = int(np.argmax(nefcs))
+  few = [k for k in range(nstep) if 0 < nefcs[k] < max(nefcs)]
+  picks = sorted(set(few[:3] + few[len(few) // 2 : len(few) // 2 + 2] + few[-2:] + [0, nstep - 1]))
+  fails = []
+  for k in picks:
+    fresh = new(caps)
+    for fname, fn in (("forward", mjw.forward), ("step", mjw.step)):
+      _set_state(fresh, states[k])
+      _set_state(used, states[k])
+      fn(mm, fresh)
+      fn(mm, used)
+      a, b = _outputs(fresh), _outputs(used)
+      diff = [n for n in a if a[n].shape != b[n].shape or a[n].tobytes() != b[n].tobytes()]
+      if diff:
+        with np.errstate(invalid="ignore"):
+          mx = {n: float(np.nanmax(np.abs(a[n].astype(np.float64) - b[n].astype(np.float64)))) for n in diff if a[n].shape == b[n].shape and a[n].size}
+        fails.append({"scene": scene, "xml": xml, "config": [jac, solver, cone, cap], "caps": caps, "nstep": nstep, "revisit_step": k, "nefc_at_state": nefcs[k],
+                      "nefc_peak": max(nefcs), "call": fname, "differing": diff, "max_abs_diff": mx})  # fmt: skip
+    # give the used Data its large history back: the state with the most rows
+    _set_state(used, states[peak])
+    mjw.step(mm, used)
+  return fails, {"caps": caps, "need": [need_efc, need_con], "picks": len(picks), "nefc_peak": max(nefcs), "nefc_final": nefcs[-1]}
+
+
+def revisit_plan(quick):
+  plan = []
+  for scene in SCENES:
+    for jac in ("dense", "sparse"):
+      for solver in ("Newton", "CG"):
+        for cone in ("pyramidal", "elliptic"):
+          caps = ["exact"]
+          if jac == "dense" and solver == "Newton":
+            caps += ["le16", "mid", "default"]
+          elif not quick:
+            caps += ["le16", "mid", "default"]
+          elif cone == "pyramidal":
+            caps += ["le16"]
+          for cap in caps:
+            plan.append((scene, jac, solver, cone, cap))
+  return plan
+
+
+# ---- sleeping enabled: several constrained solves on ONE Data with a shrinking active-DOF set -------------------------
+SLEEP_XML = """<mujoco><option jacobian="dense" solver="Newton" iterations="100" tolerance="1e-10" cone="pyramidal">
+<flag sleep="enable" island="enable"/></option><worldbody><geom type="plane" size="5 5 .1"/>
+<body name="A" pos="-1 0 .099"><freejoint/><geom type="box" size=".1 .1 .1"/></body>
+<body name="B" pos="0 0 .099"><freejoint/><geom type="box" size=".2 .2 .1" mass="2"/></body>
+<body name="C" pos=".05 .02 .297"><freejoint/><geom type="box" size=".1 .1 .1" mass="3"/></body>
+</worldbody></mujoco>"""
+
+
+def sleep_subsets():
+  """C12 with sleeping enabled, where the sleep bookkeeping is part of what both Data hold: the same Data solves
+  the all-awake problem and then every subset of awake trees; each subset solve must equal, byte for byte, the
+  solve of a fresh Data (same integration state, same awake set) whose first constrained solve is that subset."""
+  import itertools
+
+  import mujoco
+  import warp as wp
+
+  import mujoco_warp as mjw
+
+  m = mujoco.MjModel.from_xml_string(SLEEP_XML)
+  mm = mjw.put_model(m)
+
+  def build():
+    d = mujoco.MjData(m)
+    d.qvel[0:3] = [0.05, -0.02, 0.0]
+    d.qvel[6:9] = [0.03, 0.01, 0.0]
+    mujoco.mj_forward(m, d)
+    dd = mjw.put_data(m, d, nvmax=m.nv)
+    mjw.fwd_position(mm, dd)
+    mjw.fwd_velocity(mm, dd)
+    mjw.fwd_actuation(mm, dd)
+    mjw.fwd_acceleration(mm, dd)
+    return dd
+
+  def solve(dd, subset):
+    awake = np.zeros((1, m.ntree), dtype=np.int32)
+    awake[:, list(subset)] = 1
+    wp.copy(dd.tree_awake, wp.array(awake, dtype=int))
+    mjw.solve(mm, dd)
+    return dd.qacc.numpy().copy(), dd.qfrc_constraint.numpy().copy()
+
+  used = build()
+  solve(used, tuple(range(m.ntree)))
+  fails = []
+  subsets = [sub for r in range(m.ntree, 0, -1) for sub in itertools.combinations(range(m.ntree), r)]
+  for sub in subsets:
+    qa, fa = solve(used, sub)
+    qb, fb = solve(build(), sub)
+    if qa.tobytes() != qb.tobytes() or fa.tobytes() != fb.tobytes():
+      fails.append({"xml": SLEEP_XML, "awake_trees": list(sub), "qacc_used": qa[0].tolist(), "qacc_fresh": qb[0].tolist(),
+                    "max_abs_diff": float(np.max(np.abs(qa - qb)))})  # fmt: skip
+  return fails, len(subsets)
 
 
 def run(res):
   quick = res.tier == "quick"
-  res.rule = "cases: distinct random MJCF models (plane contacts, actuators with activation, equality in every third model, limits) x integrator {Euler, implicitfast} x jacobian {dense, sparse} x solver {Newton, CG} x stream {finite garbage, NaN}; each case = fresh Data vs Data after a random history (random ctrl, contacts made/broken, optional reset) with the same integration state copied in and every other array poisoned; compared bit-for-bit after step() and forward(); plus two directed minimal models"
+  res.rule = "cases: distinct random MJCF models (plane contacts, actuators with activation, equality in every third model, limits) x integrator {Euler, implicitfast} x jacobian {dense, sparse} x solver {Newton, CG} x stream {finite garbage, NaN, plausible ones (efc.state=QUADRATIC)}, every second model at tight capacities (njmax/nconmax = exactly the need); each case = fresh Data vs Data after a random history (random ctrl, contacts made/broken, optional reset) with the same integration state copied in and every other array poisoned; compared bit-for-bit after step() and forward(); plus revisited states of constraint-dropping trajectories (tilted box, limited arm) over jacobian x solver x cone x capacity {exact, <=16, 17..64, default}, a sleeping-enabled subset-solve scene, and two directed minimal models"
   ok, trs, failing = propkit.prove(res, PROPS, gen_names=["Skel_pipeline"])
-  nmodels = 9 if quick else 90
+  nmodels = 8 if quick else 90
   hist = 6 if quick else 20
   found = False
   fails = []
@@ -336,7 +547,37 @@ def run(res):
     seen.add(key)
     res.violation(key, what, data)
   nun = sum(1 for key, _, _ in fails if key.startswith("C12:unexplained"))
-  res.obligation("oracle: poisoned-history Data vs fresh Data, no unexplained difference", nun == 0, f"{len(fails)} failing (model, stream) cases of {2 * nmodels}, {nun} not attributable to a recorded cause")
+  res.obligation("oracle: poisoned-history Data vs fresh Data, no unexplained difference", nun == 0, f"{len(fails)} failing (model, stream) cases of {3 * nmodels}, {nun} not attributable to a recorded cause")
+  # revisiting earlier states of a constraint-dropping trajectory, over capacity variants
+  rv_fails, rv_runs, rv_skipped = [], 0, 0
+  for scene, jac, solver, cone, cap in revisit_plan(quick):
+    f, info = revisit(scene, jac, solver, cone, cap, 200 if scene == "box" else 120)
+    if "skipped" in info:
+      rv_skipped += 1
+      continue
+    rv_runs += 1
+    res.count(info["picks"] * 2)
+    res.nontrivial(("revisit", scene, jac, solver, cone, cap))
+    if rv_runs == 1:
+      res.sample({"kind": "revisit", "scene": scene, "config": [jac, solver, cone, cap], **info})
+    rv_fails += f
+  seen_cfg = set()
+  for f in rv_fails:
+    found = True
+    key = f"C12:revisit:{f['scene']}:{f['config'][0]}-{f['config'][1]}-{f['config'][2]}:{f['differing'][0]}"
+    if tuple(f["config"]) in seen_cfg:
+      continue
+    seen_cfg.add(tuple(f["config"]))
+    res.violation(key, f"used Data vs fresh Data with the same integration state (capacities {f['caps']}, state of step {f['revisit_step']} needing {f['nefc_at_state']} rows after a peak of {f['nefc_peak']}): {f['call']}() differs in {f['differing']}", f)
+  res.obligation("oracle: revisited states of a constraint-dropping trajectory, used vs fresh Data byte for byte", not rv_fails, f"{rv_runs} (scene, jacobian, solver, cone, capacity) runs, {rv_skipped} skipped (capacity not applicable), {len(rv_fails)} mismatching calls")
+  # sleeping enabled: subset solves on one Data vs fresh Data
+  sl_fails, nsub = sleep_subsets()
+  res.count(nsub)
+  res.nontrivial(("sleep-subsets",))
+  for f in sl_fails[:1]:
+    found = True
+    res.violation("C12:sleep:compact-solve-depends-on-earlier-solves:dense", f"dense compact solve with awake trees {f['awake_trees']} differs between a Data that solved other active sets before and a fresh Data (max abs {f['max_abs_diff']:.3g})", f)
+  res.obligation("oracle: sleeping enabled, subset solves on one Data equal fresh-Data solves", not sl_fails, f"{len(sl_fails)} of {nsub} awake-tree subsets differ")
   # directed minimal reproductions (deterministic keys)
   c = directed_cvel()
   res.count()
@@ -350,7 +591,9 @@ def run(res):
   if n["differs"]:
     found = True
     res.violation("C12:solver:nan-stale-efc-J-rows:dense", "after a NaN excursion, stale NaN rows >= nefc of the dense efc.J contaminate the solver (0*NaN): copying a complete valid integration state into the Data still gives NaN, a fresh Data gives finite results", n)
-  if not ok and not found:
+  known = {f["key"] for f in vlib.load_known().get("findings", []) if f.get("property") == "C12"}
+  new_input = any(v["found_input"] and v["key"] not in known for v in res.violations)
+  if not ok and not new_input:
     propkit.broken_proof_violation(res, "C12 def-before-use facts over the regenerated host program", failing)
   res.assumptions += [
     "field-granular analysis: the baseline list assumed_region_defined (118 Data fields) is hand-classified; that those arrays carry nothing across steps is tested, not proved",
@@ -374,9 +617,16 @@ def replay(res, path):
   if r["xml"] == NAN_XML:
     print(json.dumps(directed_nan(), indent=1))
     return 0
+  if "revisit_step" in r:
+    f, info = revisit(r["scene"], *r["config"], r["nstep"])
+    print(json.dumps({"info": info, "failures": [{k2: x[k2] for k2 in ("revisit_step", "call", "differing", "max_abs_diff")} for x in f][:6]}, indent=1, default=str))
+    return 0
+  if "awake_trees" in r:
+    print(json.dumps(sleep_subsets()[0][:3], indent=1))
+    return 0
   m = mujoco.MjModel.from_xml_string(r["xml"])
   mm = mjw.put_model(m)
   st = {a: np.asarray(b) for a, b in r["state"].items()}
-  bad, first = experiment(np.random.default_rng(r["hist_seed"]), mm, m, st, r["stream"] == "nan", r["hist_steps"])
+  bad, first = experiment(np.random.default_rng(r["hist_seed"]), mm, m, st, r["stream"], r["hist_steps"], caps=r.get("caps"))
   print("state fields differing after step:", bad, "first differing forward output:", first)
   return 0
